@@ -86,11 +86,14 @@ class Buf:
     """Dynamically sized buffer (Vec storage, plane data): symbolic length, a uniform
     initial element (None = caller-supplied unknown content) and an ordered list of
     (possibly universally quantified) store summaries."""
-    __slots__ = ('elem_tid', 'len', 'init', 'name', 'stores')
-    def __init__(self, elem_tid, length, init, name, stores=()):
+    __slots__ = ('elem_tid', 'len', 'init', 'name', 'stores', 'copy')
+    def __init__(self, elem_tid, length, init, name, stores=(), copy=False):
         self.elem_tid, self.len, self.init, self.name, self.stores = elem_tid, length, init, name, tuple(stores)
+        self.copy = copy           # a separate allocation holding a copy of the named buffer's contents (Vec::clone, to_vec)
     def with_store(self, s):
-        return Buf(self.elem_tid, self.len, self.init, self.name, self.stores + (s,))
+        return Buf(self.elem_tid, self.len, self.init, self.name, self.stores + (s,), self.copy)
+    def copied(self):
+        return Buf(self.elem_tid, self.len, self.init, self.name, self.stores, True)
     def __repr__(self):
         return f"Buf<{self.name} len={self.len} stores={len(self.stores)}>"
 
